@@ -655,7 +655,7 @@ def kernel_args(draw, name):
         v = draw(G.vec(3, -5, 5))
         return [v if np.linalg.norm(v) > 1e-3 else np.array([1.0, 2.0, 2.0])]
     if name == "AngleMod":
-        return [draw(st.integers(1, 7).flatmap(lambda n: G.vec(n, -50, 50)))]
+        return [draw(_N7.flatmap(lambda n: G.vec(n, -50, 50)))]
     if name in ("Norm", "VecToso3"):
         return [draw(G.vec(3, -5, 5))]
     if name in ("Norm6", "VecTose3", "ad"):
@@ -668,7 +668,7 @@ def kernel_args(draw, name):
     if name in ("so3ToVec", "MatrixExp3"):
         return [np.ascontiguousarray(O.hat3(draw(G.rotvecs())))]
     if name == "SafeTrace":
-        n = draw(st.integers(1, 5))
+        n = draw(_N5)
         return [draw(G.vec(n * n, -3, 3)).reshape(n, n)]
     if name == "SafeClip":
         a, b = sorted([draw(f(-2, 2)), draw(f(-2, 2))])
@@ -684,7 +684,7 @@ def kernel_args(draw, name):
     if name == "ScrewToAxis":
         return [draw(G.vec(3, -3, 3)), draw(G.unit_vectors()), draw(f(-2, 2))]
     if name in ("MatMul", "SafeDot"):
-        n, k, m_ = draw(st.integers(1, 5)), draw(st.integers(1, 5)), draw(st.integers(1, 5))
+        n, k, m_ = draw(_N5), draw(_N5), draw(_N5)
         return [draw(G.vec(n * k, -3, 3)).reshape(n, k), draw(G.vec(k * m_, -3, 3)).reshape(k, m_)]
     if name in ("LocalToGlobal", "GlobalToLocal"):
         shp = draw(st.sampled_from([(6,), (6, 1)]))
@@ -697,7 +697,7 @@ def kernel_args(draw, name):
         S, th = draw(chain_theta())
         return [draw(se3()), S, th]
     if name == "SafeCopy":
-        n, k = draw(st.integers(1, 5)), draw(st.integers(1, 5))
+        n, k = draw(_N5), draw(_N5)
         return [draw(G.vec(n * k, -3, 3)).reshape(n, k)]
     if name in ("JacobianBody", "JacobianSpace"):
         S, th = draw(chain_theta())
@@ -711,13 +711,13 @@ def kernel_args(draw, name):
         n = a[0].shape[1]
         return [a[0], a[1], a[2], a[3], 1e-6, 1e-6, -np.ones(n) * PI, np.ones(n) * PI, 30]
     if name == "EulerStep":
-        n = draw(st.integers(1, 7))
+        n = draw(_N7)
         return [draw(G.vec(n, -3, 3)), draw(G.vec(n, -3, 3)), draw(G.vec(n, -3, 3)), draw(f(1e-3, 0.5))]
     if name in ("CubicTimeScaling", "QuinticTimeScaling"):
         Tf = draw(f(0.1, 10))
         return [Tf, draw(f(0, 1)) * Tf]
     if name == "JointTrajectory":
-        n = draw(st.integers(1, 7))
+        n = draw(_N7)
         return [draw(G.vec(n, -3, 3)), draw(G.vec(n, -3, 3)), draw(f(0.1, 10)), draw(st.integers(2, 12)),
                 draw(st.sampled_from([3, 5]))]
     if name == "SPIKinSpace":
@@ -760,6 +760,10 @@ def _intify(a):
     return a
 
 
+# lengths drawn through a wide integer: Hypothesis tends to re-use a small integer it has drawn before for many
+# examples in a row, which left whole lengths (an off-by-one that only bites 3-vectors) unvisited in a 1400-case run
+_N7 = st.integers(0, 7 * 10 ** 6 - 1).map(lambda k: k % 7 + 1)
+_N5 = st.integers(0, 5 * 10 ** 6 - 1).map(lambda k: k % 5 + 1)
 _INT_TF = st.sampled_from([1, 2, 5, 12, 1000, 8000, 60000, 250000, 3000000])
 
 
@@ -853,7 +857,7 @@ def entry_cases(draw):
 
 
 CLAUSES = [
-    Clause("kernels_bounds_and_interpreted", check_kernel, kernel_cases(), 1400, 28000),
+    Clause("kernels_bounds_and_interpreted", check_kernel, kernel_cases(), 2000, 28000),
     Clause("entry_points_bounds", check_entry, entry_cases(), 1000, 16000),
 ]
 
